@@ -426,58 +426,69 @@ end BindgenModel.BitfieldUnit
 /-! ## allocation units: `offset_into_unit` against clang's offsets -/
 namespace BindgenModel.BitfieldAlloc
 
-/-- invariant of the allocation fold -/
-theorem foldl_offs (packed : Bool) (bfs : List RawBf) (s : St) (first : Nat)
+/-- invariant of the allocation fold (clang offsets known) -/
+theorem foldl_offs (packed : Bool) (bfs : List RawBf) (s : St) (first : Nat) (offOf : RawBf → Nat)
+    (hoff : ∀ b ∈ bfs, b.off = some (offOf b))
     (hs : s.unitBits ≠ 0 → s.start = first)
-    (hfirst : s.unitBits = 0 → ∀ b, bfs.head? = some b → b.off = first)
-    (hw : ∀ b ∈ bfs, 0 < b.width) (hge : ∀ b ∈ bfs, first ≤ b.off)
+    (hfirst : s.unitBits = 0 → ∀ b, bfs.head? = some b → offOf b = first)
+    (hw : ∀ b ∈ bfs, 0 < b.width) (hge : ∀ b ∈ bfs, first ≤ offOf b)
     (hadj : ∀ b ∈ bfs, adjusts packed b = false) :
-    (bfs.foldl (stepBf packed) s).offs = s.offs ++ bfs.map (fun b => b.off - first) := by
+    (bfs.foldl (stepBf packed) s).offs = s.offs ++ bfs.map (fun b => offOf b - first) := by
   induction bfs generalizing s with
   | nil => simp
   | cons b bs ih =>
     simp only [List.foldl_cons, List.map_cons]
-    have hb := hadj b (by simp)
+    have hob := hoff b (by simp)
+    have hb : adjustsAt packed b (offOf b) = false := by
+      have := hadj b (by simp); simpa [adjusts, hob] using this
     have hwb := hw b (by simp)
-    have hstart : (if s.unitBits = 0 then b.off else s.start) = first := by
+    have hstart : (if s.unitBits = 0 then offOf b else s.start) = first := by
       split
       · rename_i h0; exact hfirst h0 b rfl
       · rename_i h0; exact hs h0
     have hstep : stepBf packed s b =
-        { start := first, unitBits := b.off - first + b.width, offs := s.offs ++ [b.off - first] } := by
-      simp only [stepBf, effOff, hb, hstart]; simp
+        { start := first, unitBits := offOf b - first + b.width, offs := s.offs ++ [offOf b - first] } := by
+      simp only [stepBf, effOff, hob, Option.getD_some, hb, hstart]; simp
     rw [hstep]
     rw [ih]
     · simp
+    · intro x hx; exact hoff x (by simp [hx])
     · intro _; rfl
     · intro h0; simp only at h0; omega
     · intro x hx; exact hw x (by simp [hx])
     · intro x hx; exact hge x (by simp [hx])
     · intro x hx; exact hadj x (by simp [hx])
 
-/-- **C03 (allocation, partial).** In a run of non-empty bit-fields with non-decreasing clang
-offsets where the code never re-aligns a field itself, every bit-field sits at
+/-- **C03 (allocation, partial).** In a run of non-empty bit-fields whose clang offsets are known
+and non-decreasing and where the code never re-aligns a field itself, every bit-field sits at
 `start_of_unit + offset_into_unit = clang's offset`. -/
 theorem C03_alloc_offsets_match_clang_partial (packed : Bool) (b0 : RawBf) (bs : List RawBf)
-    (hw : ∀ b ∈ b0 :: bs, 0 < b.width) (hge : ∀ b ∈ b0 :: bs, b0.off ≤ b.off)
+    (offOf : RawBf → Nat) (hoff : ∀ b ∈ b0 :: bs, b.off = some (offOf b))
+    (hw : ∀ b ∈ b0 :: bs, 0 < b.width) (hge : ∀ b ∈ b0 :: bs, offOf b0 ≤ offOf b)
     (hadj : ∀ b ∈ b0 :: bs, adjusts packed b = false) :
-    (allocRun packed (b0 :: bs)).offs = (b0 :: bs).map (fun b => b.off - b0.off) ∧
-    ∀ b ∈ b0 :: bs, b0.off + (b.off - b0.off) = b.off := by
+    (allocRun packed (b0 :: bs)).offs = (b0 :: bs).map (fun b => offOf b - offOf b0) ∧
+    ∀ b ∈ b0 :: bs, offOf b0 + (offOf b - offOf b0) = offOf b := by
   refine ⟨?_, fun b hb => by have := hge b hb; omega⟩
   unfold allocRun
-  have := foldl_offs packed (b0 :: bs) {} b0.off (by intro h; exact absurd rfl h)
+  have := foldl_offs packed (b0 :: bs) {} (offOf b0) offOf hoff (by intro h; exact absurd rfl h)
     (by intro _ b hb; simp at hb; rw [← hb]) hw hge hadj
   simpa using this
 
 /-- **Negation (region `bf_offset_overridden`).** `#pragma pack(8)`, `unsigned long long b1:1` at
 bit 16 followed by `unsigned long b2:64`, which clang puts at bit 17: the code moves it to bit 64. -/
 theorem C03_fails_on_offset_overridden :
-    (allocRun false [⟨1, 16, 8, 8, true⟩, ⟨64, 17, 8, 8, true⟩]).offs = [0, 48] ∧
+    (allocRun false [⟨1, some 16, 8, 8, true⟩, ⟨64, some 17, 8, 8, true⟩]).offs = [0, 48] ∧
     16 + 48 ≠ 17 := by decide
+
+/-- inside a class template (no clang offsets) the code lays the run out itself, Itanium style:
+`unsigned lo:20, mid:12, hi:4` share one 32-bit storage unit and `hi` starts the next -/
+theorem C03_alloc_template_example :
+    (allocRun false [⟨20, none, 4, 4, true⟩, ⟨12, none, 4, 4, true⟩, ⟨4, none, 4, 4, true⟩]).offs
+      = [0, 20, 32] := by decide
 
 /-- the region predicate of known finding `bf_offset_overridden` (per run of bit-fields) -/
 def regionOffsetOverridden (packed : Bool) (bfs : List RawBf) : Bool := bfs.any (adjusts packed)
 
-example : adjusts false ⟨3, 5, 4, 4, true⟩ = false ∧ adjusts false ⟨64, 17, 8, 8, true⟩ = true := by decide
+example : adjusts false ⟨3, some 5, 4, 4, true⟩ = false ∧ adjusts false ⟨64, some 17, 8, 8, true⟩ = true := by decide
 
 end BindgenModel.BitfieldAlloc
